@@ -101,3 +101,13 @@ def replay_adverbs(inputs, obl):
     if problems:
         return dict(confirmed=True, detail='; '.join(problems[:3]))
     return dict(confirmed=False, detail='adverb expressions equal their expansions on the scripted operands')
+
+
+def replay_iterate_counts(inputs, obl):
+    """Iterate / Scan-Iterating with literal and COMPUTED counts (1+2, a list member, 1-1: NumPy integers) against the verb applied
+    that many times; every evaluation has a time limit (an adverb that does not return is the finding)"""
+    import replay.c02_oracle as orc
+    bad = [(n, d) for n, ok, d in orc.rows() if not ok and (n.startswith('iterate[') or n.startswith('scan-iterating['))]
+    if bad:
+        return dict(confirmed=True, detail=' || '.join(f"{d}" for n, d in bad[:3]) + (f" (+{len(bad) - 3} more)" if len(bad) > 3 else ''))
+    return dict(confirmed=False, detail='Iterate / Scan-Iterating agree with the written-out applications for literal and computed counts')
